@@ -116,11 +116,13 @@ class Result:
         self.counters[k] = self.counters.get(k, 0) + n
 
 
-def replay(out, prop, ended=True):
-    """out = the log of one scenario (group prefix removed, no END line); ended = the process reached the end of the simulation.
+def replay(out, prop, ended=True, tainted=False):
+    """out = the log of one scenario (group prefix removed, no END line); ended = the process reached the end of the simulation;
+    tainted = an earlier scenario of the same process had a timeout on a message-queue activity (see Result.after_timeout).
     Keys start with C08 for mailboxes and C09 for message queues (prop is used when no box is involved)."""
     res = Result()
     res.completed = ended
+    res.after_timeout = tainted
     evs = parse(out)
     # dates at which the 1e6 s timeout of a blocking Mailbox::put/get(timeout) fired (they fire only when nothing else can happen;
     # the API then cancels the request before the actor can print anything: all the requests expiring at one date are withdrawn
